@@ -81,7 +81,8 @@ class Runner:
         n = rng.randint(1, 12)
         out = []
         classes = ["emitted", "encoded", "lower-escapes", "absolute-url", "deleted", "never-existed", "other-collection", "other-kind", "collection-itself", "outside-prefix",
-                   "sibling-prefix", "empty", "lone-percent", "bad-escape", "dot-segments", "duplicate", "absolute-url-other-host", "root", "parent-collection", "trailing-slash-on-member"]
+                   "sibling-prefix", "empty", "lone-percent", "bad-escape", "dot-segments", "duplicate", "absolute-url-other-host", "root", "parent-collection", "trailing-slash-on-member",
+                   "bogus-parent-same-basename", "bogus-parent-same-basename"]
         for _ in range(n):
             c = rng.choice(classes)
             if c == "emitted" and live:
@@ -139,6 +140,12 @@ class Runner:
             elif c == "trailing-slash-on-member" and live:
                 nm = rng.choice(live)
                 out.append((w.url(colpath, nm) + "/", c, "free", (colpath, nm)))
+            elif c == "bogus-parent-same-basename" and live:
+                # the last segment names a real member, the parent does not exist / is not a collection
+                nm = rng.choice(live)
+                q = gen.quote_name(nm)
+                variants = [w.url(w.parent_of(colpath)) + "never-existed/" + q, w.url(colpath, nm) + "/" + q, w.url("/user/") + q, w.prefix.rstrip("/") + "/nowhere/at/all/" + q]
+                out.append((rng.choice(variants), c, "notfound", None))
             elif c == "duplicate" and out:
                 out.append(rng.choice(out))
         return out
@@ -317,7 +324,7 @@ def check(tier, seed, t0):
     k = 1 if not th else 15
     guards = [("href lists", c.get("lists", 0), 1500 * k), ("href classes judged", c.get("hrefs_judged", 0), 6000 * k), ("found answers compared with GET", c.get("found_compared_with_get", 0), 800 * k),
               ("singleton replays", c.get("singleton_replays", 0), 6000 * k), ("answers found", c.get("outcome:found", 0), 800 * k), ("answers not found", c.get("outcome:notfound", 0), 500 * k)]
-    for cl in ("emitted", "encoded", "lower-escapes", "absolute-url", "deleted", "never-existed", "other-collection", "other-kind", "collection-itself", "outside-prefix", "sibling-prefix", "empty", "bad-escape", "dot-segments"):
+    for cl in ("emitted", "encoded", "lower-escapes", "absolute-url", "deleted", "never-existed", "other-collection", "other-kind", "collection-itself", "outside-prefix", "sibling-prefix", "empty", "bad-escape", "dot-segments", "bogus-parent-same-basename"):
         guards.append(("class " + cl, c.get("class:" + cl, 0), 20))
     return common.finish(PROP, tier, seed, "exploration", merged, failures, RULE, t0, guards=guards,
                          assumptions=["XML parsers normalise CRLF to LF: data is compared modulo line ends", "hrefs on another host, dot-segment spellings and member hrefs with a trailing slash may be answered either way (checked for consistency only)"])
